@@ -58,6 +58,16 @@ func runC16(c *config) {
 		add(&tyTree{kind: 'S', children: []*tyTree{lit, {kind: 'i', n: 8}}})
 		add(&tyTree{kind: 'F', children: []*tyTree{{kind: 'v'}, named}})
 		add(&tyTree{kind: 'F', children: []*tyTree{{kind: 'v'}, lit}})
+		// as the return type of a function type, by value, and that function type behind a pointer (where the
+		// text of the function type decides) and one level deeper
+		fnN := &tyTree{kind: 'F', children: []*tyTree{named}}
+		fnL := &tyTree{kind: 'F', children: []*tyTree{lit}}
+		add(fnN)
+		add(fnL)
+		add(&tyTree{kind: 'p', children: []*tyTree{fnN}})
+		add(&tyTree{kind: 'p', children: []*tyTree{fnL}})
+		add(&tyTree{kind: 'S', children: []*tyTree{{kind: 'i', n: 8}, {kind: 'p', children: []*tyTree{fnN}}}})
+		add(&tyTree{kind: 'S', children: []*tyTree{{kind: 'i', n: 8}, {kind: 'p', children: []*tyTree{fnL}}}})
 	}
 	nSpecial := len(trees)
 	built := make([]types.Type, len(trees))
